@@ -476,3 +476,69 @@ Proof.
     + intros [H|(e0 & H1 & H2)]; [discriminate|]. congruence.
   - split; [discriminate|]. intros [H|(e0 & H1 & H2)]; discriminate.
 Qed.
+
+(* ================================================================================================
+   Section 7: the guard list of a transition is a conjunction (C08, C01)
+   ============================================================================================== *)
+Section Conjunction.
+  Variable beh : behaviour.
+  Variable nested : tdata -> cfg -> res pyres.
+
+  (* [AllHold ws c c']: evaluating the guard entries [ws] in order from [c], every one holds, ending
+     in [c'] *)
+  Inductive AllHold (g : group) (x : ctx) : list wrapper -> cfg -> cfg -> Prop :=
+  | AH_nil c : AllHold g x [] c c
+  | AH_cons w r c c1 c2 v :
+      run_wrapper beh nested g x w c = Ok c1 v -> truthy v = true ->
+      AllHold g x r c1 c2 -> AllHold g x (w :: r) c c2.
+
+  (* the list is satisfied iff every entry holds ... *)
+  Lemma all_list_true_iff g x : forall ws c c',
+    all_list beh nested g x ws c = Ok c' true <-> AllHold g x ws c c'.
+  Proof.
+    induction ws as [|w r IH]; intros c c'; simpl.
+    - split; [intros H; inversion H; constructor|intros H; inversion H; reflexivity].
+    - split.
+      + intros H. destruct (run_wrapper beh nested g x w c) as [c1 v|c1 e|] eqn:E; simpl in H; try discriminate.
+        destruct (truthy v) eqn:T; [|discriminate]. econstructor; eauto. apply IH. exact H.
+      + intros H. inversion H as [|? ? ? c1 ? v E T Hr]; subst. rewrite E. simpl. rewrite T. apply IH. exact Hr.
+  Qed.
+
+  (* ... and fails at the first entry that does not hold; the entries after it are not evaluated *)
+  Lemma all_list_false_at g x pre w post c c1 c2 v :
+    AllHold g x pre c c1 -> run_wrapper beh nested g x w c1 = Ok c2 v -> truthy v = false ->
+    all_list beh nested g x (pre ++ w :: post) c = Ok c2 false.
+  Proof.
+    intros H. revert post. induction H as [c|w0 r c c0 c3 v0 E T _ IH]; intros post Hw Tv; simpl.
+    - rewrite Hw. simpl. rewrite Tv. reflexivity.
+    - rewrite E. simpl. rewrite T. apply IH; auto.
+  Qed.
+
+  Lemma all_list_false_inv g x : forall ws c c',
+    all_list beh nested g x ws c = Ok c' false ->
+    exists pre w post c1 v, ws = pre ++ w :: post /\ AllHold g x pre c c1 /\
+                            run_wrapper beh nested g x w c1 = Ok c' v /\ truthy v = false.
+  Proof.
+    induction ws as [|w r IH]; intros c c' H; simpl in H; [discriminate|].
+    destruct (run_wrapper beh nested g x w c) as [c1 v|c1 e|] eqn:E; simpl in H; try discriminate.
+    destruct (truthy v) eqn:T.
+    - destruct (IH c1 c' H) as (pre & w' & post & c2 & v' & -> & HA & HW & HT).
+      exists (w :: pre), w', post, c2, v'. repeat split; auto. econstructor; eauto.
+    - inversion H; subst. exists [], w, r, c, v. repeat split; auto. constructor.
+  Qed.
+
+  (* one entry: `cond` expects a truthy value, `unless` a falsy one - compared on bool(value) *)
+  Lemma wrapper_expected g x w c c' v b :
+    run_wrapper beh nested g x w c = Ok c' v -> w_expected w = Some b ->
+    exists u, run_chain beh nested g x (w_cbs w) c = Ok c' u /\ v = VBool (Bool.eqb (truthy u) b).
+  Proof.
+    unfold run_wrapper. intros H E. destruct (run_chain beh nested g x (w_cbs w) c) as [c1 u|c1 e|]; simpl in H; try discriminate.
+    rewrite E in H. inversion H; subst. eauto.
+  Qed.
+
+  Lemma cond_holds_iff u : truthy (VBool (Bool.eqb (truthy u) true)) = truthy u.
+  Proof. simpl. destruct (truthy u); reflexivity. Qed.
+
+  Lemma unless_holds_iff u : truthy (VBool (Bool.eqb (truthy u) false)) = negb (truthy u).
+  Proof. simpl. destruct (truthy u); reflexivity. Qed.
+End Conjunction.
